@@ -276,7 +276,111 @@ func (rn *runner) exec(c tcase, seed int64) {
 		rn.progressEnv(c, env, repo, path, abs, b, checkCleaned, checkSmudged)
 	case "fsize-limit":
 		rn.fsizeLimit(c, env, repo, path, abs, b, checkCleaned, checkSmudged)
+	case "ext-chain":
+		rn.extChain(c, env, repo, gitDir, path, abs, b, checkSmudged)
 	}
+}
+
+// extChain: two or three chained pointer extensions (priorities 0,1[,2]; each adds 1 to every byte on clean
+// and subtracts it on smudge). The pointer must carry one ext line per stage naming the SHA-256 of that
+// stage's INPUT, its oid/size must name the stored object (the last stage's output), and smudge must give
+// the original bytes back.
+func (rn *runner) extChain(c tcase, env *sbx.Env, repo, gitDir, path, abs string, b []byte, checkSmudged func([]byte, string)) {
+	run := rn.run
+	n := 2
+	if c.Chunk == "three" {
+		n = 3
+	}
+	filt.InstallExt(env) // writes the reversible +1/-1 program <root>/verif-ext
+	prog := filepath.Join(env.Root, "verif-ext")
+	names := []string{"va", "vb", "vc"}[:n]
+	for i, nm := range names {
+		env.MustGit(repo, "config", "lfs.extension."+nm+".clean", prog+" clean %f")
+		env.MustGit(repo, "config", "lfs.extension."+nm+".smudge", prog+" smudge %f")
+		env.MustGit(repo, "config", "lfs.extension."+nm+".priority", fmt.Sprint(i))
+	}
+	stage := [][]byte{b}
+	for i := 0; i < n; i++ {
+		stage = append(stage, filt.ExtTransform(stage[i]))
+	}
+	var out []byte
+	how := "git lfs clean"
+	if c.Pk == "/git-add" {
+		how = "git add"
+		os.WriteFile(abs, b, 0o644)
+		a := env.Git(repo, "add", "--", path)
+		run.Count("processes", 1)
+		if a.GoCrash() {
+			rn.viol(c, "go-panic", "git add: "+sbx.Trunc(a.Stderr, 1500), nil)
+			return
+		}
+		if !a.OK() {
+			if n >= 3 {
+				// the pinned tree cannot run three or more chained extensions at all (pipeExtensions wires the
+				// middle stage's stdin to a pipe nobody writes to): a refusal, counted, outside this property
+				run.Count("ext_chain_of_three_refused", 1)
+				return
+			}
+			rn.viol(c, "clean-failed", "git add failed with "+fmt.Sprint(n)+" chained extensions: "+a.String(), nil)
+			return
+		}
+		out = env.PlainGit(repo, "cat-file", "blob", ":"+path).Stdout
+	} else {
+		setWt(abs, c.Wt, b)
+		res := env.Run(sbx.RunOpt{Dir: repo, Stdin: bytes.NewReader(b)}, "git-lfs", "clean", "--", path)
+		run.Count("processes", 1)
+		if res.GoCrash() {
+			rn.viol(c, "go-panic", "git lfs clean crashed: "+sbx.Trunc(res.Stderr, 1500), nil)
+			return
+		}
+		if !res.OK() {
+			if n >= 3 {
+				run.Count("ext_chain_of_three_refused", 1)
+				return
+			}
+			rn.viol(c, "clean-failed", "git lfs clean failed with "+fmt.Sprint(n)+" chained extensions: "+res.String(), nil)
+			return
+		}
+		out = res.Stdout
+	}
+	run.Count("clean_outputs_judged", 1)
+	run.Count("ext_chain_cleans", 1)
+	p, ok := ptrspec.ParseCanonical(out)
+	if !ok {
+		rn.viol(c, "pointer-not-canonical", how+": "+string(sbx.Trunc(out, 400)), nil)
+		return
+	}
+	if len(p.Exts) != n {
+		rn.viol(c, "pointer-extension-line-wrong", fmt.Sprintf("%s: %d extension lines, want %d: %+v", how, len(p.Exts), n, p.Exts), nil)
+		return
+	}
+	for i, e := range p.Exts {
+		if e.Name != names[i] || e.Priority != i || e.Oid != sbx.Sha256Hex(stage[i]) {
+			rn.viol(c, "pointer-extension-line-wrong", fmt.Sprintf("%s: extension line %d is %+v, want ext-%d-%s sha256:%s (the input of that stage)", how, i, e, i, names[i], sbx.Sha256Hex(stage[i])), nil)
+			return
+		}
+	}
+	want := stage[n]
+	if p.Oid != sbx.Sha256Hex(want) || p.Size != int64(len(want)) {
+		rn.viol(c, "pointer-does-not-name-stored-bytes", fmt.Sprintf("%s: pointer oid %s size %d, the last extension's output hashes to %s size %d", how, p.Oid, p.Size, sbx.Sha256Hex(want), len(want)), map[string]any{"clean_output": string(sbx.Trunc(out, 600))})
+		return
+	}
+	stored, err := filt.ReadObject(gitDir, p.Oid)
+	if err != nil || !bytes.Equal(stored, want) {
+		rn.viol(c, "stored-object-differs-from-input", fmt.Sprintf("%s: object %s: %v / %d bytes, want the last stage's %d bytes", how, p.Oid, err, len(stored), len(want)), nil)
+		return
+	}
+	sm := env.Run(sbx.RunOpt{Dir: repo, Stdin: bytes.NewReader(out)}, "git-lfs", "smudge", "--", path)
+	run.Count("processes", 1)
+	if sm.GoCrash() {
+		rn.viol(c, "go-panic", "git lfs smudge crashed: "+sbx.Trunc(sm.Stderr, 1500), nil)
+		return
+	}
+	if !sm.OK() {
+		rn.viol(c, "smudge-failed", "git lfs smudge failed with chained extensions: "+sm.String(), nil)
+		return
+	}
+	checkSmudged(sm.Stdout, "git lfs smudge through "+fmt.Sprint(n)+" chained extensions")
 }
 
 // fsizeLimit: the filter runs with RLIMIT_FSIZE below (or just above) the size of the content, so that
@@ -618,7 +722,7 @@ func min(a, b int) int {
 func main() {
 	run := evid.New("C01", "exploration")
 	defer sbx.RemoveBase()
-	run.Rule = "seeded cases over sizes {0,1,2,100,1023,1024,1025,4096,65515,65516,65517,131075,(3MB)} x content {random, text LF/CRLF, zeros, pointer-prefix+payload, pointer look-alike} x mode {one-shot clean/smudge fed through a pipe in write(2) chunk plans whole/1/7/512/1023/1024/1025/4096/random with pauses, filter-process via an independent pkt-line client with packet sizes 1/2/100/8192/65515/65516/random, git add + git checkout (process and one-shot filters), git hash-object --path --stdin (process and one-shot), git merge through git lfs merge-driver with merged pointer shorter/equal/longer than the overwritten one} x working-tree file at the path {absent, same, empty, 10 bytes, 1024 bytes, longer} x {no extension, one reversible extension}; plus a pointer extension whose clean or smudge program fails (partial output + exit 3, no output + exit 1, full output + exit 1, smudge side not inverting the transform) or whose configuration changes between clean and smudge (removed, renamed, other priority) driven one-shot and by git add: the filter may refuse, but a reported success must still satisfy the oracle; the same with GIT_LFS_PROGRESS naming a usable file, a relative path, a path below a missing directory or below a plain file, a directory, /dev/full; and with RLIMIT_FSIZE of the filter process at 4096 bytes / half / 94 % / exactly / one more than the content size (writes to the temporary object file fail with EFBIG). Oracle: output parses as canonical pointer (ptrspec), oid/size = SHA-256/length of the stored object, stored object = input (or extension image), smudge output = input; merge result vs git merge-file. Class = all coordinates."
+	run.Rule = "seeded cases over sizes {0,1,2,100,1023,1024,1025,4096,65515,65516,65517,131075,(3MB)} x content {random, text LF/CRLF, zeros, pointer-prefix+payload, pointer look-alike} x mode {one-shot clean/smudge fed through a pipe in write(2) chunk plans whole/1/7/512/1023/1024/1025/4096/random with pauses, filter-process via an independent pkt-line client with packet sizes 1/2/100/8192/65515/65516/random, git add + git checkout (process and one-shot filters), git hash-object --path --stdin (process and one-shot), git merge through git lfs merge-driver with merged pointer shorter/equal/longer than the overwritten one} x working-tree file at the path {absent, same, empty, 10 bytes, 1024 bytes, longer} x {no extension, one reversible extension, two or three chained extensions}; plus a pointer extension whose clean or smudge program fails (partial output + exit 3, no output + exit 1, full output + exit 1, smudge side not inverting the transform) or whose configuration changes between clean and smudge (removed, renamed, other priority) driven one-shot and by git add: the filter may refuse, but a reported success must still satisfy the oracle; the same with GIT_LFS_PROGRESS naming a usable file, a relative path, a path below a missing directory or below a plain file, a directory, /dev/full; and with RLIMIT_FSIZE of the filter process at 4096 bytes / half / 94 % / exactly / one more than the content size (writes to the temporary object file fail with EFBIG). Oracle: output parses as canonical pointer (ptrspec), oid/size = SHA-256/length of the stored object, stored object = input (or extension image), smudge output = input; merge result vs git merge-file. Class = all coordinates."
 	run.Assumptions = []string{"inputs are non-pointers by construction (pointer pass-through is C08)", "pipe chunking with pauses is a legal OS schedule; nothing is assumed about timing", "git merge-file is the authority on the expected three-way merge result"}
 	rn := &runner{run: run}
 	r := rand.New(rand.NewSource(run.Seed))
@@ -710,6 +814,13 @@ func main() {
 						add(tcase{Mode: "progress-env", Size: sz, Content: "random", Wt: wt, Chunk: kind, Pk: via})
 					}
 				}
+			}
+		}
+	}
+	for _, kind := range []string{"two", "three"} {
+		for _, via := range []string{"/oneshot", "/git-add"} {
+			for _, sz := range []int{1, 1025, 70000}[:run.N(2, 3)] {
+				add(tcase{Mode: "ext-chain", Size: sz, Content: "random", Wt: "absent", Chunk: kind, Pk: via})
 			}
 		}
 	}
